@@ -185,11 +185,34 @@ let close_float (a : float) (b : float) = same_float a b || Float.abs (a -. b) <
 let i64_of_dec (d : string) : int64 = Int64.of_string d
 let div_float (d : string) (p : int) : float = Int64.to_float (i64_of_dec d) /. (10.0 ** float_of_int p)
 
+(* encoding/json replaces invalid UTF-8 by U+FFFD; protobuf lets only valid UTF-8 into a string value, so such
+   strings exist only in the damaged-value stream and their JSON text is not compared *)
+let valid_utf8 (s : string) : bool =
+  let n = String.length s in
+  let rec go i =
+    if i >= n then true
+    else
+      let c = Char.code s.[i] in
+      let cont k = i + k < n && Char.code s.[i + k] land 0xC0 = 0x80 in
+      if c < 0x80 then go (i + 1)
+      else if c >= 0xC2 && c <= 0xDF then cont 1 && go (i + 2)
+      else if c >= 0xE0 && c <= 0xEF then
+        cont 1 && cont 2
+        && (let c1 = Char.code s.[i + 1] in (c <> 0xE0 || c1 >= 0xA0) && (c <> 0xED || c1 < 0xA0))
+        && go (i + 3)
+      else if c >= 0xF0 && c <= 0xF4 then
+        cont 1 && cont 2 && cont 3
+        && (let c1 = Char.code s.[i + 1] in (c <> 0xF0 || c1 >= 0x90) && (c <> 0xF4 || c1 < 0x90))
+        && go (i + 4)
+      else false
+  in
+  go 0
+
 (* does the implementation's JSON leaf agree with the model's description of it *)
 let rec jmatch (m : jval) (o : oj) : bool =
   match m, o with
   | JNull, OZ -> true
-  | JStr s, OS t -> str_of s = t
+  | JStr s, OS t -> let s' = str_of s in s' = t || not (valid_utf8 s')
   | JNum l, ON t -> str_of l = t
   | JBool b, OT -> b
   | JBool b, OF -> not b
@@ -460,7 +483,8 @@ let () =
          end;
          if p <= 18 then begin
            let want = "ok:" ^ hex_of_raw (decimal_text d p) in
-           if obs <> want then
+           (* StrVal's human-readable form writes a whole number as <digits>.0 *)
+           if obs <> want && not (p = 0 && obs = "ok:" ^ hex_of_raw (d ^ ".0")) then
              specviol id "c17_strval_decimal_text" (Printf.sprintf "utils.StrVal of %s is %s, the decimal reads %s" gs
                                                     (match strip_ok obs with Some h -> "\"" ^ raw_of_hex h ^ "\"" | None -> obs) (decimal_text d p))
          end
